@@ -97,7 +97,7 @@ def table(mod, clsname, kind):
 
 # ---- write-path traces ------------------------------------------------------------------------
 
-BIG = b'0:' + b'x' * 200000        # larger than any plausible piece size of a chunking write()
+BIG = b'0:' + b'x' * 4000000       # larger than any plausible piece size of a chunking write()
 
 SCENARIOS = [
     # name, ops.  start/step = one step of the writer's coroutine (recorded); the others are what
